@@ -46,6 +46,19 @@ FIRST_MISS = {
  "C18-8": "JECXZ in program families",
  "C19-7": "dividend extremes (most negative double-width value) for IDIV",
  "C20-7": "an area named Stack already present in the partial-register family",
+ "C06-9": "encodings padded with redundant prefixes to 13/14/15 bytes",
+ "C06-10": "return/call histories (stack programs) in C06",
+ "C08-9": "a pass over addressing shapes (every base/index/scale/disp/segment/a32 combination gets its own cases)",
+ "C09-9": "forms with a 16-byte memory operand get eight times the cases",
+ "C09-10": "CALL/JMP through memory in the C08/C09 instruction streams",
+ "C10-9": "brk histories (grow, shrink, fail) in the C10 stream",
+ "C14-9": "read counts far beyond anything a pipe holds (2^64-1, exactly to 2^64, ...)",
+ "C14-10": "a backlog of hundreds of kilobytes read back in other chunk sizes",
+ "C18-10": "branches whose target is the next instruction or the branch itself",
+ "C13-9": "small areas in the middle of a page where the heap search starts (added before the first attempt)",
+ "C13-10": "handler registration in two calls with overlapping lists (added before the first attempt)",
+ "C17-9": "all stack-search candidates below 2^32 occupied (added before the first attempt)",
+ "C17-10": "NUL characters inside arguments (added before the first attempt)",
 }
 rows = []
 for d in sorted(glob.glob("/verif/seeded/C*")):
